@@ -283,6 +283,8 @@ def run(ctx, known, built):
             ctx.obligation("correspondence:C05 %s (%d cases)" % (name, len(items)), not bad and len(items) > 0,
                            "%d of %d cases differ" % (len(bad), len(items)))
     ctx.note("correspondence done")
+    for x in ctx.disagreements[:3]:
+        ctx.note("disagreement: " + json.dumps(x, ensure_ascii=False, default=str)[:2500])
     total = stats["writer_checks"] + stats["reader_checks"]
     ctx.cov.update({
         "evaluations": total,
